@@ -257,6 +257,7 @@ func (fr *frame) mergeMem(preds []*ssa.BasicBlock, conds []Term) *Mem {
 	}
 	out := newMem()
 	out.gen = gen
+	forcedSort := map[string]string{}
 	if !same {
 		// untouched components become unknown after this join (sound over-approximation)
 		ft.ngen++
@@ -276,12 +277,26 @@ func (fr *frame) mergeMem(preds []*ssa.BasicBlock, conds []Term) *Mem {
 		if eq {
 			out.ver[k] = v0
 		} else {
-			ft.ngen++
-			out.ver[k] = ft.ngen
+			// versions differ: if the component's sort is known (a symbol exists for some version), merge the symbols
+			sortS := ""
+			for _, p := range preds {
+				m := fr.exit[p].mem
+				if t, ok := ft.memSyms[fmt.Sprintf("%d|%d|%s", m.gen, m.ver[k], k)]; ok {
+					sortS = t.S
+					break
+				}
+			}
+			if sortS != "" && same {
+				keys[k] = true // handled by the explicit-merge loop below (memGet creates the per-version symbols)
+				forcedSort[k] = sortS
+			} else {
+				ft.ngen++
+				out.ver[k] = ft.ngen
+			}
 		}
 	}
 	for k := range keys {
-		var sortS string
+		sortS := forcedSort[k]
 		for _, p := range preds {
 			if t, ok := fr.exit[p].mem.m[k]; ok {
 				sortS = t.S
